@@ -1384,7 +1384,7 @@ class XonshParser(Parser):
             return ast.MatchValue(value=value, **self.span(_lnum, _col))
         self._reset(mark)
         if value := self.strings():
-            return ast.MatchValue(value=value, **self.span(_lnum, _col))
+            return ast.MatchValue(value=self.pattern_string(value), **self.span(_lnum, _col))
         self._reset(mark)
         if self.expect("None"):
             return ast.MatchSingleton(value=None, **self.span(_lnum, _col))
@@ -1407,8 +1407,8 @@ class XonshParser(Parser):
         if complex_number := self.complex_number():
             return complex_number
         self._reset(mark)
-        if strings := self.strings():
-            return strings
+        if a := self.strings():
+            return self.pattern_string(a)
         self._reset(mark)
         if self.expect("None"):
             return ast.Constant(value=None, **self.span(_lnum, _col))
